@@ -2,6 +2,7 @@
 import numpy as np
 from hypothesis import strategies as st
 
+from vf.props.c09 import ps_is_exact as c09_ps_is_exact
 from vf.core import Prop, Result, lib_exception_sig
 from vf import gen, chain, evo
 from vf.props.c08 import scaled_terms, build_ops
@@ -256,7 +257,7 @@ class C10(Prop):
                 tol = 3e-4 * max(1.0, tau) * nstep * nrm * amp
             if s["kind"] in ("tdvp_vmf", "tdvp_mu_vmf"):
                 tol = 1e-4 * max(1.0, tau) * nstep * nrm * amp
-            if s["kind"] in ("tdvp_ps", "tdvp_ps2") and len(dims) > 2:
+            if s["kind"] in ("tdvp_ps", "tdvp_ps2") and not c09_ps_is_exact(mps, s["kind"]):
                 # second-order splitting error per step (see C09): O((||H||tau)^3), amplified like any perturbation
                 tol = tol + 0.5 * nstep * tau ** 3 * nrm * amp
             r.check_close(f"imag.{s['kind']}", got, ref, tol, f"{s} tau={tau} x{nstep} normalize={case['normalize']}")
